@@ -108,8 +108,8 @@ def line_search(
     max_iter: int = 30,
     iprint: int = 10,
     logger: Optional[logging.Logger] = None,
-    isave: NDArrayFloat = np.zeros((2,), np.intc),
-    dsave: NDArrayFloat = np.zeros((13,), np.float64),
+    isave: Optional[NDArrayFloat] = None,
+    dsave: Optional[NDArrayFloat] = None,
 ) -> Optional[float]:
     r"""
     Find a step that satisfies both decrease condition and a curvature condition.
@@ -220,6 +220,12 @@ def line_search(
       FORTRAN routines for large scale bound constrained optimization (2011),
       ACM Transactions on Mathematical Software, 38, 1.
     """
+
+    # work arrays of the legacy dcsrch routine: one private pair per call
+    if isave is None:
+        isave = np.zeros((2,), np.intc)
+    if dsave is None:
+        dsave = np.zeros((13,), np.float64)
 
     # steplength_0 = 1 if max_steplength > 1 else 0.5 * max_steplength
     max_steplength = max_allowed_steplength(
